@@ -1,4 +1,5 @@
 import XvcEcs.Model
+import XvcEcs.Rel
 /-!
   Line-protocol driver for the ECS model: one request per line on stdin, one canonical answer per
   line on stdout.  The Rust harness (`harness/src/bin/ecs_harness.rs`) answers the same requests
@@ -14,6 +15,8 @@ structure DState where
   r1n : R1N String Nat := R1N.new
   rdirs : Dir String × Dir Nat × Dir Ent := ([], [], [])
   gdir : GenDir := []
+  r11 : R11 String Nat := R11.new
+  r11dirs : Dir String × Dir Nat := ([], [])
 
 def getDir (st : DState) (n : String) : Dir String := (Map.find? st.dirs n).getD []
 def setDir (st : DState) (n : String) (d : Dir String) : DState := { st with dirs := Map.set st.dirs n d }
@@ -25,6 +28,57 @@ def insStr (x : String × Nat) : List (String × Nat) → List (String × Nat)
   | y :: ys => if x.1 < y.1 then x :: y :: ys else y :: insStr x ys
 
 def showList (l : List String) : String := "[" ++ ",".intercalate l ++ "]"
+
+
+/-- `e:v,e:v` (or `-` for nothing) -/
+def parsePairs (s : String) : Option (List (Ent × String)) :=
+  if s == "-" then some [] else
+  (s.splitOn ",").foldr (fun item acc =>
+    match acc, item.splitOn ":" with
+    | some l, [e, v] => (e.toNat?).map (fun e => (e, v) :: l)
+    | _, _ => none) (some [])
+
+def parseEnts (s : String) : Option (List Ent) :=
+  if s == "-" then some [] else
+  (s.splitOn ",").foldr (fun item acc =>
+    match acc, item.toNat? with
+    | some l, some e => some (e :: l)
+    | _, _ => none) (some [])
+
+/-- `e=I`, `e=S`, `e=RM:a`, `e=AM:r`, `e=D:r:a` -/
+def parseDiffs (s : String) : Option (List (Ent × Diff String)) :=
+  if s == "-" then some [] else
+  (s.splitOn ",").foldr (fun item acc =>
+    match acc, item.splitOn "=" with
+    | some l, [e, d] =>
+      match e.toNat?, d.splitOn ":" with
+      | some e, ["I"] => some ((e, Diff.identical) :: l)
+      | some e, ["S"] => some ((e, Diff.skipped) :: l)
+      | some e, ["RM", a] => some ((e, Diff.recordMissing a) :: l)
+      | some e, ["AM", r] => some ((e, Diff.actualMissing r) :: l)
+      | some e, ["D", r, a] => some ((e, Diff.different r a) :: l)
+      | _, _ => none
+    | _, _ => none) (some [])
+
+def showDiff : Diff String → String
+  | .identical => "I"
+  | .skipped => "S"
+  | .recordMissing a => s!"RM:{a}"
+  | .actualMissing r => s!"AM:{r}"
+  | .different r a => s!"D:{r}:{a}"
+
+def parseBool (s : String) : Option Bool :=
+  if s == "1" then some true else if s == "0" then some false else none
+
+/-- last binding of a key wins, as in building a `HashMap` by successive inserts -/
+def dedupPairs {α} (l : List (Ent × α)) : Map Ent α := l.foldl (fun m p => Map.set m p.1 p.2) []
+
+def showMap {α} [ToString α] (m : Map Ent α) : String :=
+  "{" ++ ",".intercalate ((sortDir m).map (fun p => s!"{p.1}:{p.2}")) ++ "}"
+
+def insNat (x : Nat) : List Nat → List Nat
+  | [] => [x]
+  | y :: ys => if x < y then x :: y :: ys else y :: insNat x ys
 
 def step (st : DState) (line : String) : DState × String :=
   match line.trimAscii.toString.splitOn " " with
@@ -68,6 +122,76 @@ def step (st : DState) (line : String) : DState × String :=
     | some e =>
       let evs := (st.store.previous ++ st.store.current).filter (fun ev => ev.ent == e)
       (st, showList (evs.map (fun ev => match ev with | .add _ v => s!"+{v}" | .remove _ => "-")))
+    | none => (st, "bad-op")
+  | ["q", "sentfor", v] =>
+    (st, match st.store.entitiesFor v with
+      | none => "none"
+      | some l => showList ((l.foldr insNat []).map toString))
+  | ["diff", acts, sub] =>
+    match parsePairs acts, (if sub == "all" then some none else (parseEnts sub).map some) with
+    | some a, some sub =>
+      let actuals := dedupPairs a
+      let ents := match sub with | some l => l | none => allEnts st.store actuals
+      let d := diffStore st.store actuals ents
+      (st, showList ((sortDir d).map (fun p => s!"{p.1}={showDiff p.2}")))
+    | _, _ => (st, "bad-op")
+  | [op, an, rm, acts] =>
+    if op == "adiff" || op == "uwa" then
+      match parseBool an, parseBool rm, parsePairs acts with
+      | some an, some rm, some a =>
+        let actuals := dedupPairs a
+        let d := diffStore st.store actuals (allEnts st.store actuals)
+        ({ st with store := applyDiff st.store d an rm }, "ok")
+      | _, _, _ => (st, "bad-op")
+    else if op == "adiffx" || op == "uwax" then
+      match parseBool an, parseBool rm, parseDiffs acts with
+      | some an, some rm, some d => ({ st with store := applyDiff st.store (dedupPairs d) an rm }, "ok")
+      | _, _, _ => (st, "bad-op")
+    else if op == "r11-ins" then
+      match an.toNat?, acts.toNat? with
+      | some e, some x => ({ st with r11 := st.r11.insert e rm x }, "ok")
+      | _, _ => (st, "bad-op")
+    else (st, "bad-op")
+  | ["r11-new"] => ({ st with r11 := R11.new }, "ok")
+  | ["r11-rem", e] =>
+    match e.toNat? with
+    | some e => ({ st with r11 := st.r11.remove e }, "ok")
+    | none => (st, "bad-op")
+  | ["r11-save"] =>
+    let (dl, dr) := st.r11dirs
+    ({ st with r11dirs := (st.r11.left.toDir st.clock dl, st.r11.right.toDir (st.clock + 1) dr), clock := st.clock + 2 }, "ok")
+  | ["r11-load"] => ({ st with r11 := R11.fromDirs st.r11dirs.1 st.r11dirs.2 }, "ok")
+  | ["r11-q"] => (st, s!"left={showMap st.r11.left.map} right={showMap st.r11.right.map}")
+  | ["r11-tuple", e] =>
+    match e.toNat? with
+    | some e =>
+      let (l, x) := st.r11.tuple e
+      (st, s!"{showOpt l}|{showOpt (x.map toString)}")
+    | none => (st, "bad-op")
+  | ["r11-l2r", e] =>
+    match e.toNat? with
+    | some e => (st, match st.r11.leftToRight e with | none => "none" | some (e, x) => s!"{e}:{x}")
+    | none => (st, "bad-op")
+  | ["r11-r2l", e] =>
+    match e.toNat? with
+    | some e => (st, match st.r11.rightToLeft e with | none => "none" | some (e, l) => s!"{e}:{l}")
+    | none => (st, "bad-op")
+  | ["r11-ebl", l] =>
+    (st, match st.r11.entityByLeft l with | .panic => "panic" | .ok none => "none" | .ok (some e) => toString e)
+  | ["r11-ebr", x] =>
+    match x.toNat? with
+    | some x => (st, match st.r11.entityByRight x with | none => "none" | some e => toString e)
+    | none => (st, "bad-op")
+  | ["r11-lbl", l] => (st, showOpt ((st.r11.lookupByLeft l).map toString))
+  | ["r11-lbr", x] =>
+    match x.toNat? with
+    | some x => (st, showOpt (st.r11.lookupByRight x))
+    | none => (st, "bad-op")
+  | ["r11-filter", k] =>
+    match k.toNat? with
+    | some k =>
+      let f := st.r11.filter (fun _ x => decide (k ≤ x))
+      (st, s!"left={showMap f.left.map} right={showMap f.right.map}")
     | none => (st, "bad-op")
   | ["r1n-new"] => ({ st with r1n := R1N.new }, "ok")
   | ["r1n-ins", pe, pc, ce, cc] =>
